@@ -89,6 +89,7 @@ type prioResult struct {
 	HoldChecks      int // quiescent points at which the discipline was (correctly) still open although drained except for a withheld release / open input
 	StopState       string
 	StopInjected    bool
+	RepeatedStops   int
 	CtlOps          int
 	AbsentRemovals  int
 	RemovedWithData int // removals / replacements after which the old channel had items taken or left
@@ -133,16 +134,18 @@ type prioExec struct {
 	abort     chan struct{}
 	wg        sync.WaitGroup
 
-	outClosed  bool
-	errClosed  bool
-	termSeen   bool
-	stopIssued bool
-	stopRet    atomic.Bool
-	gracefulOn bool
-	gracefulRt atomic.Bool
-	faultSeen  bool
-	failed     bool
-	ctls       []*ctlCall
+	outClosed        bool
+	errClosed        bool
+	termSeen         bool
+	stopIssued       bool
+	stopRet          atomic.Bool
+	gracefulOn       bool
+	gracefulRt       atomic.Bool
+	gracefulSeen     bool
+	censusAtGraceful bool
+	faultSeen        bool
+	failed           bool
+	ctls             []*ctlCall
 
 	mon *divMonitor
 }
@@ -314,7 +317,34 @@ func (x *prioExec) pull() int {
 	}
 	x.pollErr()
 	x.pollCtl()
+	x.pollGraceful()
 	return n
+}
+
+// pollGraceful — C07 (v1): GracefulStop() returns only when every delivered item was released.
+// The observation is later than the return itself and items are only ever released by the
+// stepper in between, so an unreleased item seen here was unreleased at the return as well.
+func (x *prioExec) pollGraceful() {
+	if x.gracefulSeen || !x.gracefulRt.Load() || x.stopIssued {
+		return
+	}
+	x.gracefulSeen = true
+	x.logf("GracefulStop() returned")
+	if x.mon != nil && x.mon.faulted.Load() {
+		return
+	}
+	if len(x.held) > 0 {
+		x.fail("C07", "graceful-returned-early", "GracefulStop() has returned although %d delivered item(s) have not been released yet (%v)", len(x.held), x.heldBy)
+	}
+	// C19: once GracefulStop() has returned no goroutine started by the discipline remains
+	// (looked at 1us virtual later: what is still there is blocked, here typically waiting
+	// for the releases the stepper is withholding)
+	if !x.censusAtGraceful {
+		x.censusAtGraceful = true
+		if left := bubbleCensus(x.ctl); left != "" {
+			x.fail("C19", "leak-after-graceful-return:"+x.sc.Ver, "GracefulStop() has returned but goroutine(s) started by the discipline remain (1us virtual later, blocked): %s", firstLines(left, 10))
+		}
+	}
 }
 
 func (x *prioExec) onOutputClosed() {
@@ -421,6 +451,12 @@ func (x *prioExec) checkTermination(what string) {
 	}
 	if len(x.held) > 0 {
 		x.fail("C07", "early-termination", "%s although %d delivered items were not yet released (%v)", what, len(x.held), x.heldBy)
+		for _, d := range x.held {
+			if c := x.chans[d.It.Ch]; c != nil && c.removed {
+				x.fail("C17", "removed-priority-forgotten", "%s although an item of priority %d, whose input was removed / replaced while the item was in flight, had not been fed back yet: in-flight items of a removed priority must stay accounted for", what, c.P)
+				break
+			}
+		}
 		return
 	}
 	if x.sc.isV1() && !x.gracefulOn {
@@ -607,6 +643,15 @@ func (x *prioExec) pickRelease(op POp) []int {
 			if d.Tag == p {
 				s = append(s, i)
 			}
+		}
+		return s
+	case "keep-removed": // everything except items of channels that were removed / replaced
+		var s []int
+		for i, d := range x.held {
+			if c := x.chans[d.It.Ch]; c != nil && c.removed {
+				continue
+			}
+			s = append(s, i)
 		}
 		return s
 	case "one":
@@ -874,6 +919,13 @@ func (x *prioExec) holdCheck(op POp) {
 		if !x.termSeen {
 			x.res.HoldChecks++
 		}
+		if x.gracefulRt.Load() && !x.stopIssued && !x.censusAtGraceful {
+			// C19: once GracefulStop() has returned no goroutine started by the discipline remains
+			x.censusAtGraceful = true
+			if left := bubbleCensus(x.ctl); left != "" {
+				x.fail("C19", "leak-after-graceful-return:"+x.sc.Ver, "GracefulStop() has returned but goroutine(s) started by the discipline remain (1us virtual later, blocked): %s", firstLines(left, 10))
+			}
+		}
 	}
 }
 
@@ -960,6 +1012,11 @@ func (x *prioExec) removeInput(op POp) {
 
 func (x *prioExec) callGraceful() {
 	if x.sys.graceful == nil || x.gracefulOn {
+		return
+	}
+	// a control call still in progress must return first (AddInput racing with the end of the
+	// discipline is outside the documented use)
+	if len(x.ctls) > 0 && !x.awaitCtl() {
 		return
 	}
 	x.gracefulOn = true
@@ -1133,7 +1190,13 @@ func runPrioV(sc PrioScenario, ctl *bubbleCtl) *prioResult {
 	x.div = div
 	x.mon = newDivMonitor(x, div)
 	exitDelay := []time.Duration{0, 10 * time.Nanosecond, 300 * time.Nanosecond}[sc.Seed%3]
-	b := prioBuild{Ver: sc.Ver, Div: x.mon.divide, DivV1: x.mon.divideV1, HandleExitDelay: exitDelay, H: sc.H, OutCap: sc.OutCap, FbCap: sc.FbCap, Abort: x.abort, Entered: total + 8*int(sc.H) + 4096}
+	nilCtx := sc.isV1() && (sc.Seed/3)%4 == 0
+	for _, op := range sc.Script {
+		if op.K == "cancel" {
+			nilCtx = false
+		}
+	}
+	b := prioBuild{Ver: sc.Ver, Div: x.mon.divide, DivV1: x.mon.divideV1, HandleExitDelay: exitDelay, NilCtx: nilCtx, H: sc.H, OutCap: sc.OutCap, FbCap: sc.FbCap, Abort: x.abort, Entered: total + 8*int(sc.H) + 4096}
 	for _, in := range x.chans {
 		b.Inputs = append(b.Inputs, in)
 	}
